@@ -289,6 +289,9 @@ func (o *Obligation) Text(solver string) string {
 	for _, l := range stringLemmas(body + g + " " + goal) {
 		b.WriteString(l + "\n")
 	}
+	for _, l := range regexInclusionLemmas(fix(body) + g + " " + goal) {
+		b.WriteString(l + "\n")
+	}
 	if g != "true" {
 		b.WriteString("(assert " + fix(g) + ")\n")
 	}
